@@ -1,14 +1,288 @@
 (* C02 — Every optimization phase and every fired rewrite preserves values.
-   Slice-over-slice fusion (the Slice._simplify_down rule) is the C13 theorem;
-   further rule theorems are added with the expression calculus. *)
-From DA Require Import PyBase Slicing FuseFacts.
+
+   The expression calculus: arrays are index functions (theories/NdArray.v), the optimizer's
+   most frequently fired value-level rewrite rules are functions on a small expression syntax
+   (theories/ExprRules.v, transcribed from the Python and compared with it, instance by
+   instance, by harness/c02_rules.py), and each theorem below says: whenever the rule
+   function maps [before] to [after], the two denote the same array (same shape, same value
+   at every in-bounds index) — for all shapes, indices, chunkings, operand values and
+   element-wise functions (V, leafv, constv, fop, inj are universally quantified).
+   [wfb] is what construction through the public API guarantees (indices in bounds with
+   non-zero steps, axes a permutation, operands broadcast-compatible, non-negative shapes). *)
+From DA Require Import PyBase Slicing FuseFacts NdArray ExprRules ExprRulesFacts.
 Open Scope Z_scope.
 
-(* the Slice(Slice(x)) -> Slice(x) rule: the fused index selects what applying the two
-   indices one after the other selects, on every axis length *)
+(* the Slice(Slice(x)) -> Slice(x) rule, one axis: the fused index selects what applying the
+   two indices one after the other selects, on every axis length *)
 Theorem C02_slice_slice_rule :
   forall a b c n, 0 <= n -> step_of a <> 0 -> step_of b <> 0 ->
   fuse_slice_ss a b = Some c ->
   pick (sel a n) (sel b (slice_len a n)) = sel c n.
 Proof. exact fuse_slice_ss_exact. Qed.
+
+Section Rules.
+  Variable V : Type.
+  Variable leafv : Z -> list Z -> V.
+  Variable constv : Z -> V.
+  Variable fop : Z -> list V -> V.
+  Variable inj : Z -> V.
+  Notation den := (den V leafv constv fop inj).
+
+  (* R2  SliceSlicesIntegers._simplify_down: Slice(x, all colon) -> x *)
+  Theorem C02_rule_slice_identity_sound :
+    forall before after, rule_slice_identity before = Some after -> wfb before = true ->
+    aeq (den before) (den after).
+  Proof. exact (rule_slice_identity_sound V leafv constv fop inj). Qed.
+
+  (* R1  SliceSlicesIntegers._simplify_down: Slice(Slice(x, a), b) -> Slice(x, normalize(fuse_slice(a, b))),
+     N axes, integers allowed in both a and b *)
+  Theorem C02_rule_slice_slice_sound :
+    forall before after, rule_slice_slice before = Some after -> wfb before = true ->
+    aeq (den before) (den after).
+  Proof. exact (rule_slice_slice_sound V leafv constv fop inj). Qed.
+
+  (* the whole hook: identity first, then fusion *)
+  Theorem C02_rule_slice_down_sound :
+    forall before after, rule_slice_down before = Some after -> wfb before = true ->
+    aeq (den before) (den after).
+  Proof. exact (rule_slice_down_sound V leafv constv fop inj). Qed.
+
+  (* R3  Elemwise._accept_slice: Slice(Elemwise(op, args), ix) -> Elemwise(op, arg_i[ix_i] ...),
+     n-ary, NumPy broadcasting, every operand re-sliced through the public __getitem__ *)
+  Theorem C02_rule_slice_elemwise_sound :
+    forall before after, rule_slice_elemwise before = Some after -> wfb before = true ->
+    aeq (den before) (den after).
+  Proof. exact (rule_slice_elemwise_sound V leafv constv fop inj). Qed.
+
+  (* R4  Transpose._accept_slice: Slice(Transpose(x, axes), ix) -> Transpose(x[ix permuted], axes'), where integer
+     indices drop axes and axes' renumbers the remaining ones (no transposition node when axes' is the identity
+     or at most one axis remains) *)
+  Theorem C02_rule_slice_transpose_sound :
+    forall before after, rule_slice_transpose before = Some after -> wfb before = true ->
+    aeq (den before) (den after).
+  Proof. exact (rule_slice_transpose_sound V leafv constv fop inj). Qed.
+
+  (* R8  Arange._accept_slice: Slice(Arange(start, step, count), [s]) -> Arange(start + a*step, step*k, len) *)
+  Theorem C02_rule_slice_arange_sound :
+    forall before after, rule_slice_arange before = Some after -> wfb before = true ->
+    aeq (den before) (den after).
+  Proof. exact (rule_slice_arange_sound V leafv constv fop inj). Qed.
+
+  (* R7  ExpandDims._accept_slice: Slice(ExpandDims(x, axes), ix) -> ExpandDims(x[ix without the expanded axes], axes'):
+     integers on expanded axes remove them, non-empty slices keep them, every integer shifts the later expanded axes.
+     A negative-step slice that sits on an expanded axis does not start below the axis (xnormb: its start is not
+     clipped to the -1 sentinel by slice.indices(1)), which every slice produced by normalize_slice satisfies; without
+     this hypothesis the rule function is not sound, see
+     C02_rule_slice_expand_dims_unnormalized_refuted. *)
+  Theorem C02_rule_slice_expand_dims_sound :
+    forall before after, rule_slice_expand_dims before = Some after -> wfb before = true ->
+    (forall x axes ix o, before = ESlice (EExpandDims x axes) ix o -> xnormb axes 0 ix = true) ->
+    aeq (den before) (den after).
+  Proof. exact (rule_slice_expand_dims_sound V leafv constv fop inj). Qed.
+
+  (* R9  FromArray._accept_slice: Slice(FromArray(src, region), ix) -> FromArray(src', region') [ [0, :, ..] ]:
+     the slice becomes the region of the read (composed with an existing region by _compose_slices), a small NumPy
+     source is sliced eagerly (src' = src[region], any byte limit), integers are read as size-1 regions and
+     extracted by a trailing [0].  The integers of a slice node are non-negative (normalize_index posifies them);
+     without that hypothesis the rule function is not sound, see C02_rule_slice_fromarray_negative_int_refuted. *)
+  Theorem C02_rule_slice_fromarray_sound :
+    forall limit before after, rule_slice_fromarray limit before = Some after -> wfb before = true ->
+    (forall y ix o, before = ESlice y ix o -> ints_nonnegb ix = true) ->
+    aeq (den before) (den after).
+  Proof. exact (rule_slice_fromarray_sound V leafv constv fop inj). Qed.
+
+  (* Rechunk(FromArray(ndarray, c1), c2) -> FromArray(ndarray, c2) *)
+  Theorem C02_rule_rechunk_fromarray_sound :
+    forall before after, rule_rechunk_fromarray before = Some after ->
+    aeq (den before) (den after) /\ echunks after = echunks before.
+  Proof. exact (rule_rechunk_fromarray_sound V leafv constv fop inj). Qed.
+
+  (* Rechunk(Elemwise(op, args), c) -> Elemwise(op, arg.rechunk(c_arg) ..) *)
+  Theorem C02_rule_rechunk_elemwise_sound :
+    forall before after, rule_rechunk_elemwise before = Some after -> aeq (den before) (den after).
+  Proof. exact (rule_rechunk_elemwise_sound V leafv constv fop inj). Qed.
+
+  (* the whole Transpose._simplify_down hook, including Transpose(Elemwise(args)) -> Elemwise(Transpose(arg) ..) *)
+  Theorem C02_rule_transpose_down_sound :
+    forall before after, rule_transpose_down before = Some after -> wfb before = true ->
+    aeq (den before) (den after).
+  Proof. exact (rule_transpose_down_sound V leafv constv fop inj). Qed.
+
+  (* R5  Transpose._simplify_down: Transpose(Transpose(x, p), q) -> Transpose(x, p∘q); identity removal *)
+  Theorem C02_rule_transpose_transpose_sound :
+    forall before after, rule_transpose_transpose before = Some after -> wfb before = true ->
+    aeq (den before) (den after).
+  Proof. exact (rule_transpose_transpose_sound V leafv constv fop inj). Qed.
+
+  Theorem C02_rule_transpose_identity_sound :
+    forall before after, rule_transpose_identity before = Some after -> wfb before = true ->
+    aeq (den before) (den after).
+  Proof. exact (rule_transpose_identity_sound V leafv constv fop inj). Qed.
+
+  (* R6  Rechunk(Rechunk(x, c1), c2) -> Rechunk(x, c2);  Rechunk(x, x.chunks) -> x:
+     same array, and the advertised chunks are those of [before] *)
+  Theorem C02_rule_rechunk_rechunk_sound :
+    forall before after, rule_rechunk_rechunk before = Some after ->
+    aeq (den before) (den after) /\ echunks after = echunks before.
+  Proof. exact (rule_rechunk_rechunk_sound V leafv constv fop inj). Qed.
+
+  Theorem C02_rule_rechunk_noop_sound :
+    forall before after, rule_rechunk_noop before = Some after ->
+    aeq (den before) (den after) /\ echunks after = echunks before.
+  Proof. exact (rule_rechunk_noop_sound V leafv constv fop inj). Qed.
+
+  (* the public __getitem__ (normalize_index + all-colon shortcut + SliceSlicesIntegers),
+     which the pushdown rules use to slice operands, denotes NumPy's basic slice *)
+  Theorem C02_getitem_denotes_slice :
+    forall x ix y, wfb x = true -> length ix = endim x -> mk_getitem x ix = Some y ->
+    aeq (den y) (aslice ix (den x)) /\ idx_okb ix (eshape x) = true.
+  Proof. exact (mk_getitem_sound V leafv constv fop inj). Qed.
+End Rules.
+
+(* ---------------------------------------------------------------------- *)
+(* Non-vacuity: each rule fires on a concrete well-formed instance, and the two sides
+   evaluate to the same values (V := Z; a leaf's value at an index encodes the leaf and the index). *)
+Definition ex_leafv (id : Z) (idx : list Z) : Z := fold_left (fun acc i => acc * 10 + i) idx id.
+Definition ex_fop (op : Z) (vs : list Z) : Z := fold_left (fun acc v => acc * 1000 + v) vs op.
+Definition ex_den := den Z ex_leafv (fun id => 7 * id) ex_fop (fun z => z).
+
+Example C02_rule_slice_slice_ex :
+  let x := ELeaf 1 [10; 4] [[5; 5]; [4]] in
+  let before := ESlice (ESlice x [ISlice (mkslice (Some 2) None (Some 3)); IInt (-1)] true)
+                       [ISlice (mkslice (Some 1) (Some 3) None)] true in
+  let after := ESlice x [ISlice (mkslice (Some 5) None (Some 3)); IInt (-1)] true in
+  wfb before = true /\ rule_slice_slice before = Some after /\ eshape before = [2] /\
+  to_list (ex_den before) = [153; 183] /\ to_list (ex_den after) = [153; 183].
+Proof. vm_compute. repeat split; reflexivity. Qed.
+
+Example C02_rule_slice_identity_ex :
+  let x := ELeaf 1 [2; 3] [[2]; [3]] in
+  let before := ESlice x [ISlice colon; ISlice colon] true in
+  wfb before = true /\ rule_slice_down before = Some x /\ to_list (ex_den before) = to_list (ex_den x).
+Proof. vm_compute. repeat split; reflexivity. Qed.
+
+Example C02_rule_slice_elemwise_ex :
+  (* where(c, x, y)[1::2, 2] with y broadcast from shape (1, 3), c from (3,), and a scalar *)
+  let x := ELeaf 1 [4; 3] [[2; 2]; [3]] in
+  let y := ELeaf 2 [1; 3] [[1]; [3]] in
+  let c := ELeaf 3 [3] [[3]] in
+  let before := ESlice (EElemwise 9 [c; x; y; EConst 5]) [ISlice (mkslice (Some 1) None (Some 2)); IInt 2] true in
+  let after := EElemwise 9 [ESlice c [IInt 2] true;
+                            ESlice x [ISlice (mkslice (Some 1) None (Some 2)); IInt 2] true;
+                            ESlice y [ISlice colon; IInt 2] true;
+                            EConst 5] in
+  wfb before = true /\ rule_slice_elemwise before = Some after /\ eshape before = [2] /\
+  to_list (ex_den before) = to_list (ex_den after) /\ length (to_list (ex_den after)) = 2%nat.
+Proof. vm_compute. repeat split; reflexivity. Qed.
+
+Example C02_rule_transpose_ex :
+  let x := ELeaf 1 [2; 3; 4] [[2]; [3]; [4]] in
+  let before := ETranspose (ETranspose x [2; 0; 1]%nat) [1; 2; 0]%nat in
+  let after := ETranspose x [0; 1; 2]%nat in
+  wfb before = true /\ rule_transpose_transpose before = Some after /\
+  rule_transpose_identity after = Some x /\ to_list (ex_den before) = to_list (ex_den x).
+Proof. vm_compute. repeat split; reflexivity. Qed.
+
+Example C02_rule_slice_transpose_ex :
+  (* x.transpose(2, 0, 1)[::-1, 1, 1:] : the integer drops input axis 0, the remaining axes (2, 1) renumber to (1, 0) *)
+  let x := ELeaf 1 [2; 3; 4] [[2]; [3]; [2; 2]] in
+  let before := ESlice (ETranspose x [2; 0; 1]%nat)
+                       [ISlice (mkslice None None (Some (-1))); IInt 1; ISlice (mkslice (Some 1) None None)] true in
+  let after := ETranspose (ESlice x [IInt 1; ISlice (mkslice (Some 1) None None); ISlice (mkslice None None (Some (-1)))] true)
+                          [1; 0]%nat in
+  wfb before = true /\ rule_slice_transpose before = Some after /\ eshape before = [4; 2] /\
+  to_list (ex_den before) = to_list (ex_den after) /\ length (to_list (ex_den after)) = 8%nat.
+Proof. vm_compute. repeat split; reflexivity. Qed.
+
+Example C02_rule_slice_arange_ex :
+  let before := ESlice (EArange 3 2 10 [4; 6]) [ISlice (mkslice (Some 8) (Some 1) (Some (-3)))] true in
+  wfb before = true /\ rule_slice_arange before = Some (EArange 19 (-6) 3 [2; 1]) /\
+  to_list (ex_den before) = [19; 13; 7] /\ to_list (ex_den (EArange 19 (-6) 3 [2; 1])) = [19; 13; 7].
+Proof. vm_compute. repeat split; reflexivity. Qed.
+
+(* a negative integer in the slice node (which the public API never builds: normalize_index posifies) is read as the
+   empty region i:i+1 = -1:0; the rule function then denotes x[0] instead of x[-1] *)
+Theorem C02_rule_slice_fromarray_negative_int_refuted :
+  exists limit before after,
+    rule_slice_fromarray limit before = Some after /\ wfb before = true /\
+    ~ aeq (ex_den before) (ex_den after).
+Proof.
+  exists 1000, (ESlice (ESource (SBase 1 [3]) [[2; 1]] None true 8 0) [IInt (-1)] true).
+  eexists. split; [vm_compute; reflexivity|]. split; [reflexivity|].
+  intros [_ Hg]. specialize (Hg [] I). vm_compute in Hg. discriminate.
+Qed.
+
+(* expand_dims(x, 0)[-5:0:-1] : on the size-1 axis the slice is empty (start clips to the -1 sentinel), but the
+   acceptance test  stop > start  of  indices(1) = (-1, 0, -1)  passes and the axis is kept with size 1.
+   Only an un-normalised slice does this: normalize_slice turns it into 0:0:-1, which the rule declines. *)
+Theorem C02_rule_slice_expand_dims_unnormalized_refuted :
+  exists before after,
+    rule_slice_expand_dims before = Some after /\ wfb before = true /\
+    eshape before = [0; 2] /\ eshape after = [1; 2] /\ ~ aeq (ex_den before) (ex_den after).
+Proof.
+  exists (ESlice (EExpandDims (ELeaf 1 [2] [[2]]) [0%nat])
+                 [ISlice (mkslice (Some (-5)) (Some 0) (Some (-1))); ISlice colon] true).
+  eexists. split; [vm_compute; reflexivity|]. split; [reflexivity|]. split; [reflexivity|]. split; [reflexivity|].
+  intros [Hs _]. vm_compute in Hs. discriminate.
+Qed.
+
+Example C02_rule_slice_expand_dims_ex :
+  (* x[:, None, :, None][1:, 0, ::2, :] : the integer removes the first expanded axis, the second one moves to 2 *)
+  let x := ELeaf 1 [3; 4] [[3]; [4]] in
+  let before := ESlice (EExpandDims x [1; 3]%nat)
+                       [ISlice (mkslice (Some 1) None None); IInt 0; ISlice (mkslice None None (Some 2)); ISlice colon] true in
+  let after := EExpandDims (ESlice x [ISlice (mkslice (Some 1) None None); ISlice (mkslice None None (Some 2))] true) [2%nat] in
+  wfb before = true /\ xnormb [1; 3]%nat 0 [ISlice (mkslice (Some 1) None None); IInt 0; ISlice (mkslice None None (Some 2)); ISlice colon] = true /\
+  rule_slice_expand_dims before = Some after /\ eshape before = [2; 2; 1] /\
+  to_list (ex_den before) = to_list (ex_den after) /\ to_list (ex_den after) = [110; 112; 120; 122].
+Proof. vm_compute. repeat split; reflexivity. Qed.
+
+Example C02_rule_slice_fromarray_ex :
+  (* from_array(a, chunks=((2,2,2),(3,)))[1:5][1:, 2] : regions compose, the integer is read as 2:3 and extracted *)
+  let x := ESource (SBase 1 [6; 3]) [[1; 2; 1]; [3]] (Some [mkslice (Some 1) (Some 5) None; colon]) true 8 0 in
+  let before := ESlice x [ISlice (mkslice (Some 1) None None); IInt 2] true in
+  let after := ESlice (ESource (SBase 1 [6; 3]) [[2; 1]; [1]]
+                               (Some [mkslice (Some 2) (Some 5) None; mkslice (Some 2) (Some 3) None]) true 8 0)
+                      [ISlice colon; IInt 0] false in
+  wfb before = true /\ ints_nonnegb [ISlice (mkslice (Some 1) None None); IInt 2] = true /\
+  rule_slice_fromarray (-1) before = Some after /\ eshape before = [3] /\
+  to_list (ex_den before) = [122; 132; 142] /\ to_list (ex_den after) = [122; 132; 142] /\
+  (* with the eager-copy branch (limit 64 MiB) the source itself is replaced *)
+  rule_slice_fromarray 67108864 before =
+    Some (ESlice (ESource (SSliced (SBase 1 [6; 3]) [mkslice (Some 2) (Some 5) None; mkslice (Some 2) (Some 3) None])
+                          [[2; 1]; [1]] None true 8 0) [ISlice colon; IInt 0] false).
+Proof. vm_compute. repeat split; reflexivity. Qed.
+
+Example C02_rule_rechunk_elemwise_ex :
+  let x := ELeaf 1 [4; 6] [[4]; [2; 4]] in let y := ELeaf 2 [1; 6] [[1]; [3; 3]] in
+  rule_rechunk_elemwise (ERechunk (EElemwise 3 [x; y; EConst 1]) 0 [[2; 2]; [3; 3]] 0 false false)
+  = Some (EElemwise 3 [ERechunk x 0 [[2; 2]; [3; 3]] 0 false false; y; EConst 1]).
+Proof. vm_compute. reflexivity. Qed.
+
+Example C02_rule_rechunk_ex :
+  let x := ELeaf 1 [6] [[2; 4]] in
+  rule_rechunk_rechunk (ERechunk (ERechunk x 1 [[3; 3]] 0 false false) 2 [[6]] 0 false false)
+    = Some (ERechunk x 2 [[6]] 0 false false) /\
+  rule_rechunk_noop (ERechunk x 3 [[2; 4]] 0 false false) = Some x /\
+  rule_rechunk_noop (ERechunk x 3 [[4; 2]] 0 false false) = None.
+Proof. vm_compute. repeat split; reflexivity. Qed.
+
 Print Assumptions C02_slice_slice_rule.
+Print Assumptions C02_rule_slice_identity_sound.
+Print Assumptions C02_rule_slice_slice_sound.
+Print Assumptions C02_rule_slice_down_sound.
+Print Assumptions C02_rule_slice_elemwise_sound.
+Print Assumptions C02_rule_slice_transpose_sound.
+Print Assumptions C02_rule_slice_arange_sound.
+Print Assumptions C02_rule_slice_expand_dims_sound.
+Print Assumptions C02_rule_slice_expand_dims_unnormalized_refuted.
+Print Assumptions C02_rule_slice_fromarray_sound.
+Print Assumptions C02_rule_rechunk_fromarray_sound.
+Print Assumptions C02_rule_rechunk_elemwise_sound.
+Print Assumptions C02_rule_slice_fromarray_negative_int_refuted.
+Print Assumptions C02_rule_transpose_down_sound.
+Print Assumptions C02_rule_transpose_transpose_sound.
+Print Assumptions C02_rule_transpose_identity_sound.
+Print Assumptions C02_rule_rechunk_rechunk_sound.
+Print Assumptions C02_rule_rechunk_noop_sound.
+Print Assumptions C02_getitem_denotes_slice.
